@@ -17,7 +17,7 @@ Print Assumptions C33_object_textx_error.
 Theorem C33_object_unlocated : forall fs m pos pos_end wrapped, in_text fs m pos ->
   obj_dispatch process_fills location_keys fs m pos pos_end wrapped (RaisesTx no_loc)
   = Fails (obj_location fs m pos pos_end).
-Proof. intros. rewrite obj_textx_error by assumption. reflexivity. Qed.
+Proof. exact obj_unlocated. Qed.
 Print Assumptions C33_object_unlocated.
 
 (* any other exception through textxerror_wrap becomes a TextXError at the object *)
@@ -45,14 +45,14 @@ Theorem C33_supplied_kept : forall e loc,
   (forall x, r_col e = Some x -> r_col (completed e loc) = Some x) /\
   (forall x, r_nchar e = Some x -> r_nchar (completed e loc) = Some x) /\
   (forall x, r_file e = Some x -> r_file (completed e loc) = Some x).
-Proof. intros e loc. repeat split; intros x H; cbn; rewrite H; reflexivity. Qed.
+Proof. exact supplied_kept. Qed.
 Print Assumptions C33_supplied_kept.
 
 (* a processor that returns, and a foreign exception without the wrapper, are not turned into errors *)
 Theorem C33_other_outcomes : forall fs m pos pos_end wrapped,
   obj_dispatch process_fills location_keys fs m pos pos_end wrapped Returns = Loaded /\
   obj_dispatch process_fills location_keys fs m pos pos_end false RaisesOther = Propagates.
-Proof. intros. split; [apply obj_returns | apply obj_unwrapped_other]. Qed.
+Proof. exact other_outcomes. Qed.
 Print Assumptions C33_other_outcomes.
 
 (* non-vacuity: object "xy z" (offsets 4..8) of an imported file, processor supplied only a line *)
